@@ -35,6 +35,7 @@ STUBS = BUILD_STUBS + [
 ]
 NAMES = dict(T.NAMES, n0b=['x', 'y', 'w'])
 ABSENT = object()
+LINE_RANGES = prog.op_line_ranges()
 DIRECT = ('new', 'setattr', 'delattr', 'setitem', 'delitem', 'assign',
           'copy_with', 'update_callable', 'materialize')
 TAG_NAMES = ['T0', 'T1', 'U0']
@@ -148,6 +149,8 @@ def gen_thread(rng, t, max_ops):
       fn_of.append(fn)
     elif r < 0.84:
       kw = {nm: child() for nm in rng.sample(names, min(len(names), rng.randint(1, 2)))} if names else {}
+      if rng.random() < 0.25:
+        kw['zz_unknown'] = child()   # refused after the valid ones were applied
       kind = rng.choice(['assign', 'copy_with'])
       ops.append({'op': kind, 'c': c, 'kwargs': kw})
       if kind == 'copy_with':
@@ -301,7 +304,9 @@ class Checker:
     for ci, cfg in enumerate(env.cfgs):
       if id(cfg) not in self.snaps:
         # a config created by this op
-        src = env.cfg(op) if label != 'new' and ci >= self.n_before else None
+        # the source is addressed relative to the configs that existed BEFORE
+        src = (env.cfgs[op.get('c', 0) % self.n_before]
+               if label != 'new' and ci >= self.n_before and self.n_before else None)
         if src is not None and id(src) in self.stale_val:
           self.stale_val[id(cfg)] = set(self.stale_val[id(src)])
           self.stale_tag[id(cfg)] = set(self.stale_tag.get(id(src), ()))
@@ -404,7 +409,7 @@ class Checker:
                 f'{set(tv[-1].new_value)} but the tag set is '
                 f'{set(a_tags.get(k, frozenset()))}', op=label))
             return
-      if not raised and cfg is env.cfg(op):
+      if not raised and self.n_before and cfg is env.cfgs[op.get('c', 0) % self.n_before]:
         plain = not (isinstance(op.get('v'), dict) and 'tv' in op['v'])
         if label in ('setattr', 'delattr') or (
             label == 'setitem' and 'v' in op):
@@ -432,6 +437,16 @@ class Checker:
     for k, lst in cfg.__argument_history__.items():
       for e in lst[len(b_hist.get(k, [])):]:
         fn = e.location.filename
+        rng_ = LINE_RANGES.get(label)
+        if (fn == prog.OPSITE_FILE and rng_ is not None
+            and not rng_[0] <= e.location.line_number <= rng_[1]):
+          self.viols.append(V('location-wrong-call-site',
+                              f'thread {tid} op #{idx} {label}: entry for {k!r} '
+                              f'is attributed to line {e.location.line_number} of '
+                              f'{os.path.basename(fn)} ({e.location.function_name}), '
+                              f'but this operation was issued from lines '
+                              f'{rng_[0]}-{rng_[1]}', op=label))
+          return False
         if fn.startswith(FIDDLE_DIR):
           self.viols.append(V('location-in-fiddle',
                               f'thread {tid} op #{idx} {label}: entry for {k!r} '
